@@ -106,11 +106,10 @@ func verifParams(limit int) Parameters {
 //
 //verif:opts nodeadlock preempt=1 threads=8 maxwall=1500 cover=checkpointed,newhead
 func VerifH_C04_CheckpointCoversEverything() {
-	heads := 2
-	if nd.Thorough() {
-		heads = 3
-	}
-	verifCheckpointScenario(1, heads)
+	// thorough widens the outcomes (outside-window) and the sampling range;
+	// three starting heads on top of that did not complete within the path
+	// bound and are not part of the registered thorough tier
+	verifCheckpointScenario(1, 2)
 }
 
 // Same with concurrency limit 2 (a catch-up job and a newest-head job run side
@@ -120,7 +119,7 @@ func VerifH_C04_CheckpointCoversEverything() {
 func VerifH_C04_CheckpointCoversEverythingParallel() {
 	heads := 1
 	if nd.Thorough() {
-		heads = 3
+		heads = 2
 	}
 	verifCheckpointScenario(2, heads)
 }
